@@ -329,6 +329,17 @@ def units(tier, seed):
     us = [{"kind": "force", "desc": d} for d in _worlds(tier, seed)]
     us += [{"kind": "shipped", "desc": d} for d in _shipped(tier, seed)]
     us += [{"kind": "evalsweep", "desc": d} for d in _sweeps(tier, seed)]
+    # the SAME stop-condition object used for several trees of one process
+    for g in ({"kind": "evals", "n": 40}, {"kind": "fevals", "n": 30, "weights": "equal"}, {"kind": "metaepoch", "n": 3}, {"kind": "noactive", "n": 1}, {"kind": "allstopped"}, {"kind": "rootstopped"}):
+        seq = []
+        for j, eng in enumerate((("SEA", "DE"), ("DE", "CMAf"), ("LHS", "SHADE"), ("SEA", "DE"))):
+            d = dict(engines=list(eng), gens=1, sprout={"kind": "simple", "L": 2}, gsc=g, seed=1 + seed % 1000 + j, Mh=6, drive=("run", "steps")[j % 2], reuse_components=True)
+            if g["kind"] in ("rootstopped", "allstopped"):
+                d["lsc"] = [{"kind": "metaepoch", "m": 2}] * 2
+            if g["kind"] == "noactive":
+                d["lsc"] = [None, {"kind": "metaepoch", "m": 1}]
+            seq.append(d)
+        us.append({"kind": "reuse", "descs": seq})
     us.append({"kind": "minimize", "seed": seed})
     return us
 
@@ -355,6 +366,9 @@ def run_unit(unit):
                 g = {"kind": "evals", "n": N} if kind == "evals" else {"kind": "fevals", "n": N, "weights": [1, 2, 3][: len(unit["desc"]["engines"])] if N % 2 else "equal"}
                 desc = dict(unit["desc"], choices="", gsc=g)
                 explore(res, ID, {"kind": "evalsweep"}, desc, [ShippedMonitor], bound=0, nontrivial_rule=_nontrivial, audit_every=64)
+    elif unit["kind"] == "reuse":
+        for desc in unit["descs"]:
+            explore(res, ID, {"kind": "reuse"}, dict(desc, choices=""), [ShippedMonitor], bound=0, nontrivial_rule=_nontrivial)
     elif unit["kind"] == "minimize":
         _minimize_unit(res, unit)
     return res
